@@ -5,8 +5,9 @@ cd /verif
 : > /tmp/run_all.log
 for P in $(python3 -c "import json;print(' '.join(c['property_id'] for c in json.load(open('MANIFEST.json'))['checks']))"); do
   S=$(date +%s)
-  OUT=$(./bin/vcheck $P $TIER 2>&1 | tail -3)
+  ./bin/vcheck $P $TIER > /tmp/run_all.$P.out 2>&1
   RC=$?
-  echo "== $P rc=${PIPESTATUS[0]} $(( $(date +%s) - S ))s :: $(echo "$OUT" | tail -1)" >> /tmp/run_all.log
+  echo "== $P rc=$RC $(( $(date +%s) - S ))s :: $(grep -c '^VIOLATION' /tmp/run_all.$P.out) violations :: $(tail -1 /tmp/run_all.$P.out | cut -c1-200)" >> /tmp/run_all.log
+  [ $RC = 0 ] && rm -f /tmp/run_all.$P.out
 done
 echo DONE >> /tmp/run_all.log
